@@ -146,7 +146,7 @@ pub fn run_c08(ctx: &mut Ctx, from: u64, to: u64) {
         let final_pred = rng.below(preds.len());
         let final_text = rng.pick(&all_texts).to_vec();
         let fp = &preds[final_pred];
-        let with_cands = fp.tags && fp.stored && cases[fp.model].model.n_tags() > 0;
+        let with_cands = fp.tags && fp.stored;
         let history_json = |upto: usize| {
             let mut v: Vec<J> = ops[..upto].iter().map(|o| J::s(op_name(o, &names))).collect();
             v.push(J::s(format!("update_raw({:?}); predict[{}]{}", clip(&to_string(&final_text), 40), fp.name, if fp.tags { "; fill_tags" } else { "" })));
